@@ -2,6 +2,7 @@
 //! virtual time. Runnable items are {woken tasks, the TX step, due wire deliveries}; the tape picks
 //! among them; when nothing is runnable the clock jumps to the next event.
 
+use crate::wire;
 use crate::clock;
 use crate::enginef::{waker_of, Flag};
 use crate::esc::Segment;
@@ -29,6 +30,7 @@ pub struct SStats {
     pub steps: u64,
     pub max_in_flight: usize,
     pub reordered: u64,
+    pub frames_lost: u64,
 }
 
 pub struct SimS {
@@ -47,6 +49,9 @@ pub struct SimS {
     seq: u64,
     /// Drop every transmitted frame (cable unplugged) while set.
     pub unplugged: bool,
+    /// Lose the response of the n-th (0-based countdown) frame whose first datagram has this
+    /// command and register: the devices process the frame, it never comes back.
+    pub lose_response: Option<(u8, u16, u32)>,
 }
 
 #[derive(Debug, Clone, PartialEq, Eq)]
@@ -73,6 +78,7 @@ impl SimS {
             tx_flag: Flag::new(),
             seq: 0,
             unplugged: false,
+            lose_response: None,
         }
     }
 
@@ -100,6 +106,20 @@ impl SimS {
                 Ok(bytes.len())
             });
             self.stats.frames_tx += 1;
+            let mut out = out;
+            if let (Some((cmd, ado, left)), Some(bytes)) = (self.lose_response, out.as_ref()) {
+                if let Ok(f) = wire::decode(bytes) {
+                    if f.datagrams.first().map_or(false, |d| d.cmd == cmd && u16::from_le_bytes([d.addr[2], d.addr[3]]) == ado) {
+                        if left == 0 {
+                            self.lose_response = None;
+                            self.stats.frames_lost += 1;
+                            out = None;
+                        } else {
+                            self.lose_response = Some((cmd, ado, left - 1));
+                        }
+                    }
+                }
+            }
             if let Some(bytes) = out {
                 let lat = if self.latency.1 > self.latency.0 {
                     self.latency.0 + self.tape.choose((self.latency.1 - self.latency.0 + 1) as usize, "latency") as u64
